@@ -441,7 +441,9 @@ class C09(Prop):
 
         def cli(o):
             args = ct.lst(["(mkArg %s %s %s %s %s %s %s)" % (
-                ct.strs(a["names"]), a["kind"] if a["kind_known"] else "KStr", coq_aval(a["default"]),
+                ct.strs(a["names"]),
+                a["kind"] if a["kind_known"] else "(KOther %s CFailV [])" % ct.s(a["kind_name"]),
+                coq_aval(a["default"]),
                 ct.b(a["positional"]), ct.b(a["optional"]), ct.b(a["incrementable"]),
                 ct.opt(None if a["attr_name"] is None else ct.s(a["attr_name"]))) for a in o["args"]])
             kw = ct.lst([ct.pair(ct.s(k), coq_aval(v)) for k, v in o["kwargs"]])
